@@ -231,6 +231,12 @@ def specials(rng, thorough):
         ("line70000-dot", b"first\r\n." + L(69999) + b"\r\n.last\r\n", (True,)),
         ("line70000-nonl", b"first\r\n" + L(70000), (True,)),
         ("line70000-barelf", b"first\n" + L(70000) + b"\nlast\n", (True,)),
+        # a '.' inside a long line exactly where a reader with a fixed buffer (4 KiB, 64 KiB) starts its next piece
+        ("line-dot-at-4096", b"first\r\n" + L(4096) + b"." + L(50) + b"\r\nlast\r\n", (True,)),
+        ("line-dot-at-65536", b"first\r\n" + L(65536) + b"." + L(50) + b"\r\nlast\r\n", (True,)),
+        ("line-dot-at-131072", b"first\r\n" + L(65536) + b"x" + L(65535) + b"." + L(50) + b"\r\nlast\r\n", (True,)),
+        ("line-dots-every-4096", b"first\r\n" + b"".join(b"." + L(4095) for _ in range(40)) + b"\r\nlast\r\n", (True,)),
+        ("line-alldots-70000", b"first\r\n" + b"." * 70000 + b"\r\nlast\r\n", (True,)),
         ("big64k", text_lines(rng, 64 * 1024), (True,)),
         ("big1m", text_lines(rng, 1 << 20), (True,)),
     ]
@@ -363,7 +369,9 @@ def batches(items, stores, label, size):
     out = []
     for st in stores:
         for k in range(0, len(items), size):
-            out.append({"id": "%s%d-%s" % (label, k // size, st), "store": st, "frame_b64": base64.b64encode(FRAME).decode(), "items": items[k:k + size]})
+            out.append({"id": "%s%d-%s" % (label, k // size, st), "store": st, "frame_b64": base64.b64encode(FRAME).decode(), "items": items[k:k + size],
+                        # every third batch runs with the servers' network debugging switched on (-netdebug): it must not change a byte
+                        "netdebug": (k // size + len(out)) % 3 == 2})
     return out
 
 
@@ -487,7 +495,7 @@ def c02(run, args):
         "content is compared by length and 64-bit prefix of sha256 of the canonical form, computed independently in Go (harness) and Python (concretiser) and cross-checked by the trace specification",
         "trusts TLC, the driver and projections (harness/cmd/vh/dotcodec.go), the spelling of classes (checks/dotcodec.py)",
     ]
-    if refused_hdr:
+    if refused_hdr and not run.violations:      # violations found in what was stored stand whatever else was refused
         run.log("refused with a valid header block: %s" % [(e["b"], e["smtp"]) for e in refused_hdr[:5]])
         raise Inconclusive("%d bodies behind a VALID header block were refused at the end of DATA (e.g. %s: %s): the relations of C02 were not evaluated for them; "
                            "not a C02 verdict (C01 is about acceptance), but the coverage claimed here was not reached" % (len(refused_hdr), refused_hdr[0]["b"], refused_hdr[0]["smtp"]))
